@@ -233,7 +233,7 @@ func main() {
 			b, _ := json.MarshalIndent(History{Seed: 1000 + int64(i), Modules: []string{"eth", "bsc"}, Ops: sc}, "", " ")
 			name := []string{"A-C13-1-withdraw-after-maturity", "B-C13-1-withdraw-before-maturity", "C-C13-2-add-delegate-after-removal",
 				"D-validator-slashed-then-redelegate-removal-withdraw", "E-two-live-batches-older-executed",
-				"F-export-import-with-offline-oracles", "H-edit-bridger-to-offline-oracles-bridger"}[i]
+				"F-export-import-with-offline-oracles", "H-edit-bridger-to-offline-oracles-bridger", "I-power-cap-boundary"}[i]
 			lib.Must(os.WriteFile(filepath.Join(corpusDir, name+".json"), b, 0o644))
 		}
 	}
@@ -431,5 +431,17 @@ func scripted() [][]Op {
 		Op{K: "edit", M: 0, A: 4, B: 104}, Op{K: "edit", M: 0, A: 5, B: 6}, Op{K: "edit", M: 0, A: 6, B: 108},
 		Op{K: "edit", M: 0, A: 3, B: 109}, // offline: refused
 		Op{K: "add", M: 0, A: 3, Amt: fx(9000)}, Op{K: "block", Dt: mature}, Op{K: "block"}, Op{K: "unbond", M: 0, A: 0}, Op{K: "block"})
-	return [][]Op{a, b, c, d, e, f, h}
+	// I: the 30 % power cap at its boundary: powers 30,10,10,10,10,15,15 (total 100, cap floor(30*100/100) = 30): dropping
+	//    oracle 0 (30) is refused, dropping oracles 1 and 5 (25) is accepted, then dropping 0 (30 of 75: cap 22) refused
+	var ib []Op
+	for a := 0; a < nOracles; a++ {
+		ib = append(ib, Op{K: "fund", M: 0, A: a, Amt: fx(300000)})
+	}
+	ib = append(ib, Op{K: "params", M: 0, P: []string{fx(100), "100", "800000000000000000", "2"}}, Op{K: "gov", M: 0, L: []int{0, 1, 2, 3, 4, 5, 6}})
+	for a, st := range []int64{3000, 1000, 1000, 1000, 1000, 1500, 1500} {
+		ib = append(ib, Op{K: "bond", M: 0, A: a, B: 100 + a, E: 200 + a, V: a % 3, Amt: fx(st)})
+	}
+	ib = append(ib, Op{K: "block"}, Op{K: "gov", M: 0, L: []int{1, 2, 3, 4, 5, 6}}, Op{K: "gov", M: 0, L: []int{0, 2, 3, 4, 6}},
+		Op{K: "gov", M: 0, L: []int{2, 3, 4, 6}}, Op{K: "block"})
+	return [][]Op{a, b, c, d, e, f, h, ib}
 }
